@@ -617,10 +617,29 @@ Proof.
   - apply set_store_failed_atomic in Est. subst. exact Hg.
 Qed.
 
+Lemma inv_save_startup g st fl st' r : Inv st -> do_save_startup g st fl = (st', r) -> Inv st'.
+Proof.
+  intros [B1 [B2 HS]] H. unfold do_save_startup in H. inversion H; subst; clear H.
+  split; [simpl; lia|]. split; [simpl; lia|]. simpl.
+  destruct HS as [?|[s [Hs [Hl [Hb [N1 [N2 Hg]]]]]]]; [left; auto|].
+  right. exists s. repeat split; auto; try apply Hg; lia.
+Qed.
+Lemma inv_reset st : Inv st -> Inv (do_reset st).
+Proof.
+  intros [B1 [B2 _]]. unfold do_reset. split; [simpl; lia|]. split; [simpl; lia|]. left. auto.
+Qed.
+Lemma inv_reload_frr st k st' r evs : Inv st -> do_reload_frr st k = (st', r, evs) -> Inv st'.
+Proof.
+  intros HI H. unfold do_reload_frr in H. destruct k as [|[|[|k]]]; inversion H; subst; auto.
+Qed.
+
 Lemma inv_step var reg g st o st' r evs :
-  fixed var -> plain o = true -> Inv st -> step var reg g st o = (st', r, evs) -> Inv st'.
+  fixed var -> inv_ok o = true -> Inv st -> step var reg g st o = (st', r, evs) -> Inv st'.
 Proof.
   intros HV HP HI. destruct o; try discriminate HP; simpl.
+  8:{ intros H; inversion H; subst; clear H. eapply (inv_save_startup g st); [exact HI | reflexivity]. }
+  8:{ intros H; inversion H; subst. apply inv_reset; auto. }
+  8:{ intros H. eapply inv_reload_frr; eauto. }
   - destruct (do_create st) eqn:E. intros H; inversion H; subst. eapply inv_create; eauto.
   - destruct (do_close st id) eqn:E. intros H; inversion H; subst. eapply inv_close; eauto.
   - destruct (do_delete st id) eqn:E. intros H; inversion H; subst. eapply inv_delete; eauto.
@@ -630,7 +649,7 @@ Proof.
   - intros H. eapply inv_commit; eauto.
 Qed.
 
-Lemma inv_run var reg g ops : fixed var -> forallb plain ops = true -> forall st, Inv st -> Inv (run var reg g st ops).
+Lemma inv_run var reg g ops : fixed var -> forallb inv_ok ops = true -> forall st, Inv st -> Inv (run var reg g st ops).
 Proof.
   intros HV. induction ops as [|o ops IH]; simpl; intros HP st HI; auto.
   apply andb_true_iff in HP as [HP1 HP2]. apply IH; auto. destruct (step var reg g st o) as [[st' r] evs] eqn:E. simpl. eapply inv_step; eauto.
@@ -800,10 +819,13 @@ Proof.
 Qed.
 
 Lemma inv2_step var reg g st o st' r evs :
-  fixed var -> plain o = true -> Inv st -> Inv2 reg st -> step var reg g st o = (st', r, evs) -> Inv2 reg st'.
+  fixed var -> inv_ok o = true -> Inv st -> Inv2 reg st -> step var reg g st o = (st', r, evs) -> Inv2 reg st'.
 Proof.
   intros HV HP HI H2 H. apply inv_expire in HI as HIe. apply (inv2_expire reg) in H2 as H2e.
   destruct o; try discriminate HP; simpl in H.
+  8:{ unfold do_save_startup in H. inversion H; subst. exact H2. }
+  8:{ inversion H; subst. intros s []. }
+  8:{ unfold do_reload_frr in H. destruct k as [|[|[|k]]]; inversion H; subst; exact H2. }
   - unfold do_create in H. cbv zeta in H. destruct (lock (expire st)); inversion H; subst; auto.
     intros s Hin. simpl in Hin. apply in_app_or in Hin as [Hin|[<-|[]]]; [apply H2e; auto|reflexivity].
   - unfold do_close in H. cbv zeta in H. destruct (has_session _ _); inversion H; subst; auto.
@@ -840,7 +862,7 @@ Proof.
       intros s' Hin. rewrite Hs, Hs1 in Hin. subst id. rewrite remove_single in Hin. contradiction.
 Qed.
 
-Lemma inv2_run var reg g ops : fixed var -> forallb plain ops = true -> forall st, Inv st -> Inv2 reg st ->
+Lemma inv2_run var reg g ops : fixed var -> forallb inv_ok ops = true -> forall st, Inv st -> Inv2 reg st ->
   Inv2 reg (run var reg g st ops).
 Proof.
   intros HV. induction ops as [|o ops IH]; simpl; intros HP st HI H2; auto.
@@ -964,4 +986,24 @@ Proof.
     rewrite has_cont_clear_below, Hb in Hc. apply andb_true_iff in Hc as [_ Hc]. simpl in Hc.
     apply path_eqb_eq in Hc. exact Hc.
   - intros q Hb. eapply set_store_leaf_frame; eauto.
+Qed.
+
+(* ------------------------------------------------------------------ the administrative methods *)
+Lemma admin_effects g st :
+  (forall fl, let st' := fst (do_save_startup g st fl) in
+     running st' = running st /\ startup st' = running st /\ sessions st' = sessions st /\ lock st' = lock st /\
+     frr st' = frr st /\ vfiles st' = vfiles st /\ vmem st' = vmem st /\
+     sfile st' = (if fl then sfile st else Some (scrub g (running st))) /\
+     snd (do_save_startup g st fl) = (if fl then RSaveFail else ROk)) /\
+  (let st' := do_reset st in
+     running st' = empty_store /\ sessions st' = [] /\ lock st' = None /\ startup st' = startup st /\
+     sfile st' = sfile st /\ frr st' = frr st /\ vfiles st' = vfiles st /\ vmem st' = vmem st /\ next_id st' = next_id st) /\
+  (forall k, let '(st', r, evs) := do_reload_frr st k in
+     persisted st' = persisted st /\ sessions st' = sessions st /\ lock st' = lock st /\
+     (frr st' = frr st \/ frr st' = Some (running st)) /\ (r = ROk -> frr st' = Some (running st))).
+Proof.
+  split; [|split].
+  - intros fl. unfold do_save_startup; simpl. destruct fl; repeat split.
+  - unfold do_reset; simpl. repeat split.
+  - intros k. unfold do_reload_frr. destruct k as [|[|[|k]]]; simpl; repeat split; auto; try discriminate.
 Qed.
